@@ -33,7 +33,7 @@ ASSUMPTIONS = [
     "rounding tolerance |d| <= 1e-10*max(|a|,|b|)+1e-12 between machine code and interpreter (different evaluation order, fused ops)",
     "py_func of a kernel still calls compiled callees; whole-interpreter semantics is covered by the NUMBA_DISABLE_JIT child",
 ]
-BUDGET = {"quick": {"examples": 4000, "wall": 420}, "thorough": {"examples": 160000, "wall": 2400}}
+BUDGET = {"quick": {"examples": 4000, "wall": 420}, "thorough": {"examples": 600000, "wall": 2400}}
 MANDATORY = {t: ["nontrivial", "oob-child", "e2e", "harvested-vector", "sig:f8(f8,f8[:])", "sig:f8(f8)", "sig:nielsen"] for t in ("quick", "thorough")}
 SHRINK = {"quick": True, "thorough": True}
 
